@@ -258,7 +258,7 @@ func trunc(s string, n int) string {
 
 // ---- generator ----
 
-var entryNames = []string{"golden", "want.txt", "exp/out.golden", "stderr.golden", "b.txt", "data/x", "exp/golden", "data/want.txt"}
+var entryNames = []string{"golden", "want.txt", "exp/out.golden", "stderr.golden", "b.txt", "data/x", "exp/golden", "data/want.txt", "my golden.txt", "exp dir/é.golden"}
 var texts = []string{"hello out\n", "alpha\nbeta\n", "", "one two\n", "line\nwith $HOME\n", "warning: something\n", "\n\nblank lines around\n\n", "  indented  \n", "\n"}
 var actuals = []string{`hello out\n`, `alpha\nbeta\n`, `changed text\n`, `one two\n`, `no final newline`, `-- x --\nfoo\n`, `foo\n-- x --`, `cr\r\n`, "bad\xffutf8\\n", `>already quoted\n`, `a\n-- y --\nb\n`, "", `-- x --\n\xff\n`}
 
@@ -309,40 +309,40 @@ func genUpdate(t *rapid.T) updCase {
 			if rapid.IntRange(0, 2).Draw(t, "match") == 0 {
 				act = esc(e.data)
 			}
-			lines = append(lines, "exec vmain emit -o "+q(act), "cmp stdout "+e.name)
+			lines = append(lines, "exec vmain emit -o "+q(act), "cmp stdout "+q(e.name))
 		case 3: // stderr
 			act := rapid.SampledFrom(actuals).Draw(t, "actual")
-			lines = append(lines, "exec vmain emit -e "+q(act), "cmp stderr "+e.name)
+			lines = append(lines, "exec vmain emit -e "+q(act), "cmp stderr "+q(e.name))
 		case 4: // file created at run time, compared with an entry
 			nfile++
 			f := fmt.Sprintf("actual%d.txt", nfile)
 			act := rapid.SampledFrom(actuals).Draw(t, "actual")
-			lines = append(lines, "cemit -o "+q(act), "cp stdout "+f, "cmp "+f+" "+e.name)
+			lines = append(lines, "cemit -o "+q(act), "cp stdout "+f, "cmp "+f+" "+q(e.name))
 		case 5: // negated cmp never updates
-			lines = append(lines, "exec vmain emit -o "+q(rapid.SampledFrom(actuals).Draw(t, "actual")), "! cmp stdout "+e.name)
+			lines = append(lines, "exec vmain emit -o "+q(rapid.SampledFrom(actuals).Draw(t, "actual")), "! cmp stdout "+q(e.name))
 		case 6: // cmpenv never updates (and fails on mismatch)
 			act := esc(e.data)
 			if rapid.IntRange(0, 3).Draw(t, "envmismatch") == 0 {
 				act = `other\n`
 			}
-			lines = append(lines, "exec vmain emit -o "+q(act), "cmpenv stdout "+e.name)
+			lines = append(lines, "exec vmain emit -o "+q(act), "cmpenv stdout "+q(e.name))
 		case 7: // comparison against a file outside the archive
 			nfile++
 			f := fmt.Sprintf("runtime%d.txt", nfile)
 			lines = append(lines, "exec vmain emit -o 'runtime text\\n'", "cp stdout "+f, "exec vmain emit -o "+q(rapid.SampledFrom([]string{`runtime text\n`, `different\n`}).Draw(t, "rt")), "cmp stdout "+f)
 		case 8: // same entry twice
 			a1, a2 := rapid.SampledFrom(actuals).Draw(t, "a1"), rapid.SampledFrom(actuals).Draw(t, "a2")
-			lines = append(lines, "exec vmain emit -o "+q(a1), "cmp stdout "+e.name, "exec vmain emit -o "+q(a2), "cmp stdout "+e.name)
+			lines = append(lines, "exec vmain emit -o "+q(a1), "cmp stdout "+e.name, "exec vmain emit -o "+q(a2), "cmp stdout "+q(e.name))
 		case 9: // compare from inside the entry's directory (or another one) after cd; paths relative to the new directory
 			if dir := pathDir(e.name); dir != "." {
 				act := rapid.SampledFrom(actuals).Draw(t, "actual")
-				lines = append(lines, "cd "+dir, "exec vmain emit -o "+q(act), "cmp stdout "+pathBase(e.name), "cd $WORK")
+				lines = append(lines, "cd "+q(dir), "exec vmain emit -o "+q(act), "cmp stdout "+q(pathBase(e.name)), "cd $WORK")
 			} else {
 				act := rapid.SampledFrom(actuals).Draw(t, "actual")
-				lines = append(lines, "mkdir elsewhere", "cd elsewhere", "exec vmain emit -o "+q(act), "cmp stdout ../"+e.name, "cd $WORK")
+				lines = append(lines, "mkdir elsewhere", "cd elsewhere", "exec vmain emit -o "+q(act), "cmp stdout "+q("../"+e.name), "cd $WORK")
 			}
 		default:
-			lines = append(lines, rapid.SampledFrom([]string{"exists " + e.name, "# a phase comment", "", "! exists nosuchfile", "grep . " + e.name}).Draw(t, "filler"))
+			lines = append(lines, rapid.SampledFrom([]string{"exists " + q(e.name), "# a phase comment", "", "! exists nosuchfile", "grep . " + q(e.name)}).Draw(t, "filler"))
 		}
 	}
 	script := strings.Join(lines, "\n") + "\n"
